@@ -106,7 +106,7 @@ def finish(rep, level, explanation, assumptions, trusted_base, seed=0, checker_c
             known_hit.append((f, known_keys[f['key']]))
         else:
             violations.append(f)
-    stale = [k for k in known_keys if k not in {f['key'] for f in rep.findings}]
+    stale = [k for k in known_keys if k not in {f['key'] for f in rep.findings} and known_keys[k].get('tier', rep.tier) == rep.tier]
 
     print('== %s (%s tier): rules and instances' % (prop, rep.tier))
     for name in rep.order:
